@@ -2,8 +2,8 @@
 Exploration over inputs x histories: every proper non-empty prefix and every single-byte framing
 corruption of all programs of <=3 lines over 6 line shapes, every unassigned token per dialect, and
 all sequences of 1..4 input files (valid / truncated / empty / scrub) in one process."""
-import os, itertools
-from lib import core, run, dfsrun, mcb, basic_ref as R
+import os, itertools, subprocess
+from lib import core, run, dfsrun, mcb, build, basic_ref as R
 
 VARIANTS = ['plain', 'san']
 PID = 'C09'
@@ -68,6 +68,69 @@ def w_prefix(case):
             else:
                 bump(res, 'rejected-prefix-ok')
             res['nt'].append((R.CANON[dialect], pre))
+        if res['viol']:
+            res['case'] = case
+    except Exception:
+        import traceback
+        res['viol'].append(('HARNESS', traceback.format_exc()))
+        res['case'] = case
+    return res
+
+
+def run_channel(d, dialect, listo, data, chan):
+    """the real binary reading `data` through one input channel: a named file, `-` with stdin redirected from a
+    (seekable) file, `-` with stdin a (non-seekable) pipe"""
+    exe = build.exe('plain', 'bbcbasic_to_text')
+    opts = ['--dialect', dialect, '--listo', str(listo)]
+    if chan == 'pipe':
+        return run.run([exe] + opts + ['-'], stdin=data, cwd=d, timeout=20)
+    dfsrun.write(d, 'in.bbc', data)
+    if chan == 'file':
+        return run.run([exe] + opts + ['in.bbc'], cwd=d, timeout=20)
+    with open(os.path.join(d, 'in.bbc'), 'rb') as f:
+        e = dict(run.BASE_ENV)
+        try:
+            p = subprocess.run([exe] + opts + ['-'], stdin=f, stdout=subprocess.PIPE, stderr=subprocess.PIPE, cwd=d, env=e, timeout=20)
+        except subprocess.TimeoutExpired as t:
+            return run.Result(-1, 0, True, t.stdout or b'', t.stderr or b'')
+    rc = p.returncode
+    return run.Result(rc if rc >= 0 else -1, -rc if rc < 0 else 0, False, p.stdout or b'', p.stderr)
+
+
+def w_channel(case):
+    """every proper non-empty prefix of one program through the real binary by three input channels"""
+    res = mkres()
+    try:
+        dialect, listo = case['dialect'], case['listo']
+        lines = [(10 * (i + 1), SHAPE_BODIES[s]) for i, s in enumerate(case['shapes'])]
+        prog = R.frame(dialect, lines)
+        st, ref = R.classify(dialect, prog, listo)
+        d = run.fresh_dir('c09ch')
+        for chan in ('pipe', 'redir', 'file'):
+            r = run_channel(d, dialect, listo, prog, chan)
+            res['n'] += 1
+            if st != R.WELL or r.status() != 'exit0' or r.out != ref:
+                res['viol'].append(('C09:channel:%s:intact-program-not-listed' % chan, 'intact program %s via %s: %s' % (prog.hex(), chan, r.status())))
+                continue
+            for k in range(1, len(prog)):
+                pre = prog[:k]
+                g = run_channel(d, dialect, listo, pre, chan)
+                res['n'] += 1
+                where = 'marker' if k > len(prog) - (2 if R.CANON[dialect] in R.BIG_ENDIAN else 3) else 'line'
+                sig = 'C09:channel:%s:%s:' % (chan, endian(dialect))
+                if g.sig or g.timeout or g.exit not in (0, 1):
+                    res['viol'].append((sig + 'crash', 'prefix %s: %s %r' % (pre.hex(), g.status(), g.err[-200:])))
+                elif g.exit == 0:
+                    bump(res, 'accepted')
+                    res['viol'].append((sig + 'truncated-accepted:' + where, 'dialect=%s prefix(%d of %d)=%s read via %s accepted with exit 0' % (
+                        dialect, k, len(prog), pre.hex(), chan)))
+                elif not g.err.strip():
+                    res['viol'].append((sig + 'no-diagnostic', 'prefix %s via %s' % (pre.hex(), chan)))
+                elif not ref.startswith(g.out):
+                    res['viol'].append((sig + 'invented-text:' + where, 'prefix %s via %s printed %r' % (pre.hex(), chan, g.out[-60:])))
+                else:
+                    bump(res, 'rejected-prefix-ok')
+                res['nt'].append((R.CANON[dialect], pre, chan))
         if res['viol']:
             res['case'] = case
     except Exception:
@@ -345,7 +408,7 @@ def w_history(case):
 
 
 def worker(case):
-    return {'prefix': w_prefix, 'corrupt': w_corrupt, 'tokens': w_tokens, 'history': w_history, 'stale': w_stale}[case['w']](case)
+    return {'prefix': w_prefix, 'corrupt': w_corrupt, 'tokens': w_tokens, 'history': w_history, 'stale': w_stale, 'channel': w_channel}[case['w']](case)
 
 
 def shape_seqs(maxlen):
@@ -360,6 +423,14 @@ def fam_prefix(tier):
     for dialect in dialects:
         for s in shape_seqs(3 if tier == 'thorough' or dialect in ('6502', 'Z80') else 2):
             yield {'w': 'prefix', 'dialect': dialect, 'listo': 7 if len(s) % 2 else 0, 'shapes': s}
+
+
+def fam_channel(tier):
+    """programs of <=2 (thorough: <=3) lines: every prefix through the real binary as named file, `-` from a file, `-` from a pipe"""
+    dialects = ['6502', 'Z80'] if tier == 'quick' else ['6502', 'Z80', 'ARM', 'Windows', 'PDP11', 'Mac']
+    for dialect in dialects:
+        for s in shape_seqs(2 if tier == 'quick' or dialect not in ('6502', 'Z80') else 3):
+            yield {'w': 'channel', 'dialect': dialect, 'listo': 7 if len(s) % 2 else 0, 'shapes': s}
 
 
 def fam_corrupt(tier):
@@ -397,7 +468,7 @@ def fam_history(tier):
 
 
 FAMILIES = [('T-token-faults', fam_tokens), ('S-stale-buffer-independence', fam_stale), ('H-file-histories', fam_history), ('P-prefixes', fam_prefix),
-            ('F-framing-corruption', fam_corrupt)]
+            ('F-framing-corruption', fam_corrupt), ('C-input-channels', fam_channel)]
 
 
 def main(tier, seed):
